@@ -20,11 +20,12 @@ from .. import kc
 from ..common import MachineryFailure, REPO
 from ..tlc import extract_tuples, run_tlc
 
-SKELETON = ["OUT", "R", "R/components", "R/components/c", "R/proj", "R/proj/sub", "R/proj/nested", "R/proj/nested/inner", "R/sib", "R/orphan"]
-PARENT = {"OUT": "OUT", "R": "OUT", "R/components": "R", "R/components/c": "R/components", "R/proj": "R", "R/proj/sub": "R/proj", "R/proj/nested": "R/proj", "R/proj/nested/inner": "R/proj/nested", "R/sib": "R", "R/orphan": "R"}
+SKELETON = ["OUT", "R", "R/components", "R/components/c", "R/proj", "R/proj/sub", "R/proj/nested", "R/proj/nested/inner", "R/sib", "R/orphan", "R/sdkconfig.rename.d"]
+PARENT = {"OUT": "OUT", "R": "OUT", "R/components": "R", "R/components/c": "R/components", "R/proj": "R", "R/proj/sub": "R/proj", "R/proj/nested": "R/proj", "R/proj/nested/inner": "R/proj/nested", "R/sib": "R", "R/orphan": "R", "R/sdkconfig.rename.d": "R"}
 PROJECTS_DEFAULT = {"R/proj", "R/proj/nested", "R/sib"}
 RENAME_DIRS = ["R", "R/components/c", "R/proj", "R/proj/sub", "R/proj/nested", "R/proj/nested/inner", "R/sib", "R/orphan"]
 FILE_DIRS = ["R/components/c", "R/proj", "R/proj/sub", "R/proj/nested", "R/proj/nested/inner", "R/sib", "R/orphan"]
+ODD_DIR = "R/sdkconfig.rename.d"  # a directory whose NAME looks like a rename file: files in it are ordinary defaults files
 
 
 def old_name(d):
@@ -59,6 +60,11 @@ def universes(rng, n, fixed=True):
         for rd, inc in (("R/sib", False), ("R/orphan", False), ("R/proj/nested", False), ("R/orphan", True), ("R/proj/nested", True), ("R/proj", True)):
             combos.append(([rd, "R/proj/sub"], [(fd, [old_name(rd)]) for fd in ("R/proj", "R/sib", "R/components/c")]))
             extras.append(([] if inc else [rd], [rd] if inc else []))
+    if fixed:
+        combos.append((["R/components/c"], [(ODD_DIR, [old_name("R/components/c")]), ("R/orphan", [old_name("R/components/c")])]))
+        extras.append(([], []))
+        combos.append((["R"], [(ODD_DIR, [old_name("R")])]))
+        extras.append(([], []))
     for _ in range(n // 4):
         rds = rng.sample(RENAME_DIRS, rng.choice([2, 3]))
         files = [(rng.choice(FILE_DIRS), rng.sample([old_name(r) for r in RENAME_DIRS], rng.choice([1, 2]))) for _ in range(rng.choice([2, 3]))]
@@ -154,7 +160,7 @@ def main(run):
                   total += 1
         u["obs"] = obs
         # the command line, once per universe (all files, given order)
-        if tier == "thorough" or ui % 6 == 0:
+        if tier == "thorough" or ui % 6 == 0 or any(f["dir"] == ODD_DIR for f in u["files"]):
             env = dict(os.environ, IDF_PATH=real["R"], PYTHONPATH=REPO)
             named = [os.path.join(real[d_], "sdkconfig.rename") for d_ in u["explicit"] if u["rename"][d_]]
             incl = [a for d_ in u["includes"] for a in ("--includes", real[d_])]
@@ -192,7 +198,7 @@ def main(run):
     run.cov["cli_runs"] = sub_checked
     run.cov["exhaustive"] = True
     run.cov["rule"] = (
-        "directory universes over a 10-directory skeleton (outside, IDF root, components/c, project, its sub-directory, nested project and a directory of it, "
+        "directory universes over an 11-directory skeleton (outside, IDF root, components/c, project, its sub-directory, nested project and a directory of it, a directory named like a rename file, "
         "sibling project, orphan directory): every single rename placement with files in every directory (fixed part) + seeded "
         "placements of <= 3 rename files and <= 3 defaults files, occasionally with a project marker removed; per universe every order "
         "of every subset of the files, explored by TLC and run on the real functions; non-trivial = orders of >= 2 files"
